@@ -148,6 +148,26 @@ def directed_families():
     F.append(("trace:method", ["trace", _Gm, "method"]))
     F.append(("diag:sum", ["sum", ["diag", _Gm]]))
     F.append(("diagf:dot", ["dot", ["diagf", _Gm], _y]))
+    # vectors packed from scalars by hand, VectorExpression([a, b, x[2]]): bare variables / constants as elements
+    packed = ["velems", [_a, _b, ["el", _x, 2]]]
+    packed_c = ["velems", [_a, ["const", 2.5, "float"], _b, ["const", -1.0, "float"], ["el", _x, 0]]]
+    F.append(("packed:sum-of-bare-variables", ["sum", packed]))
+    F.append(("packed:sum-with-constants", ["sum", packed_c]))
+    F.append(("packed:dot", ["dot", packed, ["velems", [_b, ["const", 1.5, "float"], _a]]]))
+    F.append(("packed:dot-with-vector", ["dot", packed, _y]))
+    F.append(("packed:norm2", ["norm", ["velems", [_a, ["const", 0.75, "float"], _b]], 2]))
+    F.append(("packed:norm1", ["norm", ["velems", [_a, _b, ["const", -0.5, "float"]]], 1]))
+    F.append(("packed:weights", ["matmul", ["arr", [1.5, -2.0, 0.25]], packed]))
+    F.append(("packed:sum-of-mixed", ["sum", ["velems", [_a, ["bin", "*", _a, _b], ["const", 3.0, "float"], ["fn", "sin", _b], _b]]]))
+    # narrow NumPy dtypes whose own arithmetic would wrap: the numbers are what counts (2 * (int8 w @ y), uint8 scalar coefficients ...)
+    F.append(("narrow:2*(int8 w@y)", ["bin", "*", ["raw", 2, "int"], ["matmul", ["arr", [90, -100, 127], "int8"], _y]]))
+    F.append(("narrow:(uint8 w@y)*3", ["bin", "*", ["matmul", ["arr", [200, 100, 250], "uint8"], _y], ["raw", 3, "int"]]))
+    F.append(("narrow:-2*(y@int16 w)+1", ["bin", "+", ["bin", "*", ["raw", -2, "int"], ["matmul", _y, ["arr", [30000, -20000, 123], "int16"]]], ["raw", 1, "int"]]))
+    F.append(("narrow:float32 w@y scaled", ["bin", "*", ["raw", 3, "int"], ["matmul", ["arr", [0.5, 0.75, -0.25], "float32"], _y]]))
+    F.append(("narrow:uint8-coefficient*a**3", ["bin", "*", ["raw", 60, "npu8"], ["bin", "**", _a, ["raw", 3, "int"]]]))
+    F.append(("narrow:int8-exponent", ["bin", "**", _pos(_a), ["raw", 12, "npi8"]]))
+    F.append(("narrow:int16-coefficient*a**4*b", ["bin", "*", ["bin", "*", ["raw", 3000, "npi16"], ["bin", "**", _a, ["raw", 4, "int"]]], _b]))
+    F.append(("narrow:uint8-coefficient*sin", ["bin", "*", ["raw", 200, "npu8"], ["fn", "sin", ["bin", "*", ["raw", 3, "int"], _a]]]))
     # compositions across kinds
     F.append(("mix:1", ["bin", "+", ["bin", "*", ["sum", ["vpow", _x, 2]], ["fn", "exp", ["neg", _a]]], ["bin", "/", ["dot", _y, _y], _pos(_b)]]))
     F.append(("mix:2", ["fn", "log", _pos(["bin", "-", ["qf", _y, Q3], ["matmul", ["arr", [1.0, 2.0, 3.0]], _y]])]))
